@@ -16,7 +16,7 @@ pub fn def() -> PropertyDef {
     PropertyDef {
         id: "C14",
         level: "exploration",
-        props: |_| vec![Box::new(Postfilter) as Box<dyn DynProp>, Box::new(PostfilterAfterHistory) as Box<dyn DynProp>, Box::new(PostfilterAfterUnvoiced) as Box<dyn DynProp>],
+        props: |_| vec![Box::new(Postfilter) as Box<dyn DynProp>, Box::new(PostfilterAfterHistory) as Box<dyn DynProp>, Box::new(PostfilterAfterUnvoiced) as Box<dyn DynProp>, Box::new(super::c06::AfterFrames(1)) as Box<dyn DynProp>],
         extra: no_extra,
         replay_custom: no_custom,
         assumptions: &[
@@ -66,6 +66,17 @@ impl Prop for Postfilter {
         };
         // keep the (1+beta)-scaled shape inside 2 nepers as well
         let target = t.uniform(0.2, 2.0) / (1.0 + beta);
+        // one case in four: the longest responses the domain allows, measured in SAMPLES - lowest
+        // rate, strong warping, strong sharpening, high order (the energy compensation works on a
+        // fixed number of samples, whatever the rate)
+        if t.chance(0.25) {
+            let alpha = *t.pick(&[0.55, 0.6, 0.58, 0.6]);
+            let beta = *t.pick(&[0.5, 0.4, 0.45]);
+            let len = t.urange(20, 41);
+            let target = t.uniform(1.7, 2.0) / (1.0 + beta);
+            let cepstrum = gen_cepstrum(t, len, alpha, target);
+            return Case { rate: 8000, alpha, beta, cepstrum };
+        }
         let cepstrum = gen_cepstrum(t, len, alpha, target);
         Case { rate, alpha, beta, cepstrum }
     }
